@@ -773,8 +773,8 @@ def r56(chk, m, rule_id='R5.6'):
 
 
 # ---------------------------------------------------------------------------
-def r57(chk, m):
-    R = chk.rule('R5.7', 'category codes changed for an argument type (url: # ~ % & become ordinary) are restored on every '
+def r57(chk, m, rule_id='R5.7'):
+    R = chk.rule(rule_id, 'category codes changed for an argument type (url: # ~ % & become ordinary) are restored on every '
                  'normal exit of readArgumentAndSource, including the one for an absent optional argument (abstract '
                  'interpretation with a two-entry catcode table)', 2)
     fn = m.func('plasTeX.TeX', 'TeX.readArgumentAndSource')
@@ -789,7 +789,10 @@ def r57(chk, m):
 
         def call(self, interp, node, fname, args, kwargs, state):
             if fname.endswith('context.whichCode') and len(args) == 1:
-                return OLD.get(args[0], A.TOP)
+                # the code in force at the moment of the question (a saved value that is computed late sees the new codes)
+                cur = dict(OLD)
+                cur.update(dict(state.env.get('__codes', ())))
+                return cur.get(args[0], A.TOP)
             if fname.endswith('context.catcode') and len(args) == 2:
                 state.env['__codes'] = state.env.get('__codes', ()) + ((args[0], args[1]),)
                 return A.NONE
